@@ -1,5 +1,6 @@
 import TypstyleModel.Props.C04
 import TypstyleModel.Proofs.Emits
+import TypstyleModel.Proofs.Tokens
 /-! C06 — no comment lost, duplicated, reordered or reworded (partial: printer side). -/
 namespace Typstyle
 open Pretty
@@ -54,5 +55,23 @@ theorem C06_flow_keeps_comment_position {σ : Type} (e : Env) (ctx : Ctx)
           pure { acc with flow := acc.flow.pushComment d (child.kind == .blockComment),
                           peekLC := child.kind == .lineComment, peekHash := false }) := by
   simp [flowStepM, hk, hkw]
+
+
+/-- T6.1 (comments are preserved, by construction): the printer's documents carry the text of
+their comments (all non-blank characters of comment atoms); every builder operation maintains it
+and an alternative is only admitted between documents with the same comment text.  If the family
+produced for a tree passes the comparison with the tree's own comment text (`commentsCertified`,
+evaluated on every case of the correspondence run), then at **every** width and indent unit the
+rendered layout contains every comment of the tree (outside verbatim regions, which are emitted
+as they are), complete, exactly once and in source order — none dropped, duplicated, merged with
+code or reordered. -/
+theorem C06_comments_preserved (root : Node) (d : Twin.Doc) (h : commentsCertified root d = true) (u w : Nat) :
+    cmtText (best w 0 [⟨0, .brk, d.fam u⟩]) = (specCmts (prepare root)).toList :=
+  certified_comments_best root d h u w
+
+theorem C06_comments_preserved_all_layouts (root : Node) (d : Twin.Doc) (h : commentsCertified root d = true)
+    (u : Nat) (m : Mode) (xs : List Atom) (hl : Lay m (d.fam u) xs) :
+    cmtText xs = (specCmts (prepare root)).toList :=
+  certified_comments root d h u m xs hl
 
 end Typstyle
